@@ -3,7 +3,7 @@
 # touched) and run the property's check (tier $1, default quick). One line per change; logs in .work/logs/alt.<name>.<ID>.<tier>.log
 tier=${1:-quick}; shift
 cd "$(dirname "$0")/.."
-names=${@:-$(ls seeded)}
+names=${@:-$(cd seeded && ls -d */ | tr -d /)}
 for name in $names; do
   d=seeded/$name
   pid=${name:0:3}
